@@ -61,6 +61,8 @@ def confirm(srcdir, slot):
         res["error"] = out[-500:]; return res
     meta = json.load(open(os.path.join(srcdir, "meta.json")))
     nodef = "no-default-features" in json.dumps(meta)
+    # some seeds only differ from the original with debug assertions off
+    release = "--release" in json.dumps(meta)
     rc1, o1 = sh("cargo build --offline 2>&1 | tail -3", cwd=repo, env=env)
     rc2, o2 = sh("cargo build --offline --no-default-features 2>&1 | tail -3", cwd=repo, env=env)
     res["builds"] = "error" not in o1 and "error" not in o2
@@ -69,7 +71,7 @@ def confirm(srcdir, slot):
     shutil.copy(os.path.join(srcdir, "demo.rs"), os.path.join(repo, "tests", "demo.rs"))
     def demo():
         outs = []
-        for flags in ([""] + (["--no-default-features"] if nodef else [])):
+        for flags in ([""] + (["--no-default-features"] if nodef else []) + (["--release"] if release else [])):
             rc, out = sh("cargo test --offline %s --test demo 2>&1 | grep -E '^test result|error(\\[|:)' | head -5" % flags, cwd=repo, env=env)
             outs.append(out)
         return outs
